@@ -13,6 +13,8 @@ open PyGql PyGql.Depth
   answer   {"acyclic":bool,"fuel":n,"spec":[depth per op],
             "rule":[[flagged op indices] | "err:<kind>"  per grid entry],
             "rulev":[same for the model of the rule after C19-Q1vars.patch (variables coerced per operation)],
+            "pipeline":["executed"|"rejected-depth"|"rejected-other"|"err:<kind>" per grid entry; request key "derr" = number of
+                        errors of the default validator] (model of graphql_blocking(validators=[default_validator, rule])),
             "orig":[same for the model of the unchanged rule],
             "paths":[per op, per direct Field child, per maxdepth: [[path components]] | "err:<kind>"],
             "pathsOrig": the same for `selected_fields` before C19-Q1sf.patch}
@@ -77,6 +79,11 @@ def handle (j : J) : J :=
       ("spec", .arr (doc.ops.map fun op => J.ofNat (DepthSpec.depth doc vars op))),
       ("rule", .arr (grid.map fun (f, l) => resJ (rule fuel l f doc vars))),
       ("rulev", .arr (grid.map fun (f, l) => resJ (ruleV fuel l f doc (varDefsOfJson (j.getD "doc")) vars))),
+      ("pipeline", .arr (grid.map fun (f, l) =>
+        match pipeline fuel l f doc (varDefsOfJson (j.getD "doc")) vars (j.natD "derr") with
+        | .raised e => errJ e
+        | .executed => .str "executed"
+        | o => .str (if o.depthRejected then "rejected-depth" else "rejected-other"))),
       ("orig", .arr (grid.map fun (f, l) => resJ (ruleOrig fuel l f doc vars))),
       ("paths", .arr (doc.ops.map fun op => .arr (op.sels.filterMap fun s =>
         match s with
